@@ -537,6 +537,24 @@ func revokeCert(sc *storageContext, config *crlConfig, cert *x509.Certificate) (
 			resp.Data["revocation_time_rfc3339"] = curRevInfo.RevocationTimeUTC.Format(time.RFC3339Nano)
 		}
 
+		// An earlier revocation of this certificate may have failed after
+		// the revocation entry was written but before the CRL was rebuilt.
+		// Do not report success until the CRL has been rebuilt as well.
+		if !config.AutoRebuild {
+			warnings, crlErr := sc.Backend.crlBuilder.rebuild(sc, false)
+			if crlErr != nil {
+				switch crlErr.(type) {
+				case errutil.UserError:
+					return logical.ErrorResponse("Error during CRL building: %s", crlErr), nil
+				default:
+					return nil, fmt.Errorf("error encountered during CRL building: %w", crlErr)
+				}
+			}
+			for index, warning := range warnings {
+				resp.AddWarning(fmt.Sprintf("Warning %d during CRL rebuild: %v", index+1, warning))
+			}
+		}
+
 		return resp, nil
 	}
 
